@@ -10,6 +10,7 @@ mod engine;
 mod evidence;
 mod gen;
 mod geom;
+mod hard;
 mod known;
 mod probe;
 mod props;
